@@ -96,6 +96,7 @@ func runC11(c *Ctx) {
 	// the style sheet embedded in an SVG document reaches its minifier as written
 	if pk := c.P.Pkg("svg"); pk != nil {
 		c.r0519(pk, "R11.10")
+		c.r0523(pk, "R11.12")
 	}
 }
 
